@@ -362,6 +362,17 @@ def keyfile_password_prompt(keyfile):
     return pw
 
 
+def _header_value(text):
+    """
+    Return the text in a form that can be used as the value of an HTTP header
+    field: Each sequence of line breaks and other control characters is
+    replaced with a blank, and characters that cannot be encoded in
+    ISO-8859-1 are replaced with a backslash escape sequence.
+    """
+    text = re.sub(r'[\x00-\x1f\x7f]+', ' ', text)
+    return text.encode('latin-1', 'backslashreplace').decode('latin-1')
+
+
 class ThreadedHTTPServer(socketserver.ThreadingMixIn, HTTPServer):
     """
     Defines an HTTPServer class for indication reception.
@@ -726,7 +737,8 @@ class ListenerRequestHandler(BaseHTTPRequestHandler):
         if cim_error is not None:
             self.send_header("CIMError", cim_error)
         if cim_error_details is not None:
-            self.send_header("CIMErrorDetails", cim_error_details)
+            self.send_header("CIMErrorDetails",
+                             _header_value(cim_error_details))
         if headers is not None:
             for header, value in headers:
                 self.send_header(header, value)
